@@ -119,6 +119,21 @@ func (d *Driver) pod(n string, i int) *corev1.Pod {
 	return ps[i-1]
 }
 
+// podOf is the i-th pod (creation order) on node n among the pods of the ExtendedDaemonSet key (namespace + name label).
+func (d *Driver) podOf(key, n string, i int) *corev1.Pod {
+	ns, name := splitKey(key)
+	k := 0
+	for _, p := range d.C.PodsOnNode(n) {
+		if p.Namespace == ns && p.Labels[edsv1.ExtendedDaemonSetNameLabelKey] == name {
+			k++
+			if k == i {
+				return p
+			}
+		}
+	}
+	return nil
+}
+
 func csv(s string) []string {
 	if s == "" || s == "-" {
 		return nil
@@ -281,6 +296,9 @@ func (d *Driver) Apply(a Action) (Event, bool) {
 	}
 	// pod-addressed kubelet actions
 	p := d.pod(a.N, a.I)
+	if a.Key != "" && a.N != "#" {
+		p = d.podOf(a.Key, a.N, a.I)
+	}
 	if p == nil {
 		d.Skipped++
 		return Event{}, false
